@@ -4,9 +4,6 @@ package otelstorage
 
 // Contracts for the deductive verifier in /verif (govc). Comment-only: no code is added.
 
-//@ func NewTimestampFromTime
-//@   inline
-
 // ---- C20: every key is mapped to a valid LogQL label name
 
 //@ scope attrs.go
@@ -53,3 +50,11 @@ package otelstorage
 
 //@ func (Attrs).AsMap
 //@   inline
+
+//@ scope timestamp.go
+
+// The timestamp of a time is that time in nanoseconds since the epoch: no rounding, no clamping.
+//@ func NewTimestampFromTime
+//@   modifies nothing
+//@   pure
+//@   ensures[same-instant-in-nanoseconds] ret0 == pcommon.NewTimestampFromTime(t)
